@@ -12,8 +12,37 @@ from core import Spec  # noqa: E402
 MODES = ['fwd', 'rev', 'auto']
 JACS = [None, 'dense', 'csc', 'csr']
 FMTS = ['array', 'dict', 'flat_dict']
-LIN_FF = ['runonce', 'lbgs', 'lbjac', 'direct', 'direct', 'direct_sub', 'krylov']
-LIN_CPL = ['runonce', 'lbgs', 'direct', 'direct', 'direct_cyc', 'direct_sub', 'krylov', 'krylov_cyc']
+LIN_FF = ['runonce', 'lbgs', 'lbjac', 'direct', 'direct', 'direct_sub', 'krylov', 'krylov_sub']
+LIN_CPL = ['runonce', 'lbgs', 'direct', 'direct', 'direct_cyc', 'direct_sub', 'krylov', 'krylov_cyc', 'krylov_sub']
+
+
+RHS_VARIANTS = [
+    True,
+    {'collect_stats': True},
+    {'check_zero': True, 'collect_stats': True},
+    {'rtol': 1e-12, 'atol': 1e-12, 'collect_stats': True},
+    {'auto': True, 'collect_stats': True},
+    {'max_cache_entries': 1, 'check_zero': True, 'rtol': 1e-12, 'atol': 1e-12, 'collect_stats': True},
+    {'max_cache_entries': 0, 'check_zero': True, 'collect_stats': True},
+]
+
+
+def rhs_configs(spec, rng, nextra):
+    """configurations for the specs of specgen.gen_rhs_spec: the sub-group solver with rhs_checking on, in rev
+    (where the cache is used) and fwd"""
+    cfgs = []
+    for mode in ('fwd', 'rev'):
+        for ds in (False, True):
+            cfgs.append({'mode': mode, 'lin': 'runonce', 'jac': None, 'fmt': 'array', 'driver_scaling': ds,
+                         'nl': 'nlbgs', 'primary': True})
+    for _ in range(nextra):
+        lin = rng.choice(['direct_sub', 'direct_sub', 'krylov_sub', 'direct', 'krylov'])
+        cfg = {'mode': rng.choice(['rev', 'rev', 'rev', 'fwd', 'auto']), 'lin': lin,
+               'jac': rng.choice([None, None, 'dense', 'csc']) if lin.startswith('direct') else rng.choice(JACS),
+               'fmt': rng.choice(FMTS), 'driver_scaling': rng.random() < 0.5, 'nl': 'nlbgs',
+               'mf': rng.random() < 0.5, 'rhs': rng.choice(RHS_VARIANTS)}
+        cfgs.append(cfg)
+    return cfgs
 
 
 def configs(spec, rng, nextra):
@@ -29,6 +58,8 @@ def configs(spec, rng, nextra):
                'jac': rng.choice(JACS), 'fmt': rng.choice(FMTS), 'driver_scaling': rng.random() < 0.5,
                'nl': rng.choice(['nlbgs', 'nlbgs', 'newton']) if cpl else 'nlbgs',
                'mf': rng.random() < 0.7}
+        if rng.random() < 0.3:
+            cfg['rhs'] = rng.choice(RHS_VARIANTS)
         if cfg['lin'] in ('runonce', 'lbgs', 'lbjac'):
             cfg['jac'] = None           # block solvers do not support assembled jacobians
         if cfg['lin'].startswith('direct') and cfg['jac'] == 'csr':
@@ -66,7 +97,10 @@ class C01(Spec):
             'with indices, aliases, scaler/adder or ref/ref0 and units; each spec is run under the primary '
             'configuration in fwd and rev, with and without driver scaling, plus sampled configurations of '
             '{fwd,rev,auto} x {LinearRunOnce,LinearBlockGS,LinearBlockJac,DirectSolver,ScipyKrylov (top or per cycle)} x '
-            '{matrix-free / dict, dense, csc, csr} x {array,dict,flat_dict} x {NLBGS,Newton}; a case is a distinct spec')
+            '{matrix-free / dict, dense, csc, csr} x {array,dict,flat_dict} x {NLBGS,Newton} x rhs_checking {off, True, option '
+            'dicts}; plus chains of responses that are positive / negative / unit multiples of other responses (and responses '
+            'bypassing the sub-group) downstream of a sub-group DirectSolver / ScipyKrylov with rhs_checking, so that the '
+            'linear-solution cache takes its equal / negated / parallel / anti-parallel / zero branches; a case is a distinct spec')
     assumptions = ['coloured totals are not exercised here (C03 owns simultaneous-derivative colouring)',
                    'nonlinear (non-affine) components are outside the generator: the derivative of an affine model does '
                    'not depend on the linearisation point',
@@ -74,13 +108,18 @@ class C01(Spec):
                    '(counted in the evidence)']
 
     def gen(self, tier, rng):
-        n = 200 if tier == 'quick' else 2000
+        n = 170 if tier == 'quick' else 2000
         nextra = 6 if tier == 'quick' else 14
         cases = []
         for k in range(n):
             cpl = (k % 4 == 3)
             spec = sg.gen_valid_spec(rng, coupled=cpl)
             cases.append({'spec': spec, 'cfgs': configs(spec, rng, nextra), 'kind': spec_kind(spec)})
+        # responses that are (anti-)parallel multiples of other responses, upstream sub-group solver with
+        # rhs_checking (linear-solution cache)
+        for k in range(40 if tier == 'quick' else 400):
+            spec = sg.gen_valid_rhs_spec(rng)
+            cases.append({'spec': spec, 'cfgs': rhs_configs(spec, rng, nextra + 2), 'kind': 'rhs-chain'})
         return cases
 
     def search_gen(self, tier, rng):
@@ -121,6 +160,13 @@ def _after(v, cases, results):
     v.cov['configurations_checked'] = ncfg
     v.cov['configurations_vacuous_nonconverged'] = vac
     v.cov['exact_cases'] = sum(1 for r in results if r.get('exact'))
+    st = {}
+    for r in results:
+        for kk, vv in (r.get('rhs_stats') or {}).items():
+            st[kk] = st.get(kk, 0) + vv
+    v.cov['rhs_checking_cache_statistics'] = st
+    if not (st.get('parhits', 0) > 0 and st.get('neghits', 0) + st.get('eqhits', 0) > 0):
+        v.broke('correspondence:generator-does-not-reach-the-linear-solution-cache %s' % st)
     if ncfg == 0 or vac > ncfg:
         v.broke('correspondence:too-many-vacuous-configurations (%d of %d)' % (vac, vac + ncfg))
 
